@@ -12,49 +12,51 @@ static const char * GN[64] = {VF_N64("G")};   // stale garbage beyond dataSize
 static const char * AN[16] = {VF_N16("A")};
 static const char * BN[16] = {VF_N16("B")};
 
-using LS = LeastSquares<double>;
 
-static void fill(LS & ls, int m, int n, const char ** jn, const char ** yn)
+template<typename S>
+static void fill(LeastSquares<S> & ls, int m, int n, const char ** jn, const char ** yn)
 {
   for (int r = 0; r < m; ++r) {
-    for (int c = 0; c < n; ++c) {ls.getJ()(r, c) = vf_f64(jn[r * n + c]);}
-    ls.getY()(r) = vf_f64(yn[r]);
+    for (int c = 0; c < n; ++c) {ls.getJ()(r, c) = (S)vf_f64(jn[r * n + c]);}
+    ls.getY()(r) = (S)vf_f64(yn[r]);
   }
 }
 
 // normal matrix / right-hand side handed to the decomposition == J^T J, J^T Y of the CURRENT rows,
 // and the solution of the (cut) system satisfies A z = b; hence J^T (J z - Y) = 0
-template<bool SVD, bool WEIGHTED>
+template<typename S, bool SVD, bool WEIGHTED>
 static void solve_once()
 {
+  using LS = LeastSquares<S>;
+  using VecX = Eigen::Matrix<S, Eigen::Dynamic, 1>;
   const int n = (int)vf_param("n"), m = (int)vf_param("m"), cap = (int)vf_param("cap");
   LS ls(n, cap);              // buffers larger than the problem: rows m..cap-1 are stale
   for (int r = 0; r < cap; ++r) {
-    for (int c = 0; c < n; ++c) {ls.getJ()(r, c) = vf_f64(GN[r * n + c]);}
-    ls.getY()(r) = vf_f64(GN[40 + r]);
+    for (int c = 0; c < n; ++c) {ls.getJ()(r, c) = (S)vf_f64(GN[r * n + c]);}
+    ls.getY()(r) = (S)vf_f64(GN[40 + r]);
   }
   ls.setDataSize(m);
   fill(ls, m, n, JN, YN);
-  double w[16];
+  S w[16];
   for (int r = 0; r < m; ++r) {
-    w[r] = 1.0;
+    w[r] = 1;
     if (WEIGHTED) {
-      w[r] = vf_f64(WN[r]);
+      w[r] = (S)vf_f64(WN[r]);
       vf_assume((w[r] >= 1e-3) & (w[r] <= 1e3));
       ls.getW()(r) = w[r];
     }
   }
   // oracle normal equations over the current rows (weighted rows: w_i * row_i)
-  double A[4][4], b[4];
+  S A[4][4], b[4];
   for (int i = 0; i < n; ++i) {
     b[i] = 0;
-    for (int k = 0; k < m; ++k) {b[i] += (w[k] * vf_f64(JN[k * n + i])) * (w[k] * vf_f64(YN[k]));}
+    for (int k = 0; k < m; ++k) {b[i] += (w[k] * (S)vf_f64(JN[k * n + i])) * (w[k] * (S)vf_f64(YN[k]));}
     for (int j = 0; j < n; ++j) {
       A[i][j] = 0;
-      for (int k = 0; k < m; ++k) {A[i][j] += (w[k] * vf_f64(JN[k * n + i])) * (w[k] * vf_f64(JN[k * n + j]));}
+      for (int k = 0; k < m; ++k) {A[i][j] += (w[k] * (S)vf_f64(JN[k * n + i])) * (w[k] * (S)vf_f64(JN[k * n + j]));}
     }
   }
-  Eigen::VectorXd z = WEIGHTED ? ls.weightedEstimate() : (SVD ? ls.estimateUsingSVD() : ls.estimateUsingCholeskyDecomposition());
+  VecX z = WEIGHTED ? ls.weightedEstimate() : (SVD ? ls.estimateUsingSVD() : ls.estimateUsingCholeskyDecomposition());
   // (i) what was decomposed is the oracle normal matrix (the engine cut JtJ_/JtY_ at the decomposition call)
   bool okA = true, okb = true;
   for (int i = 0; i < n; ++i) {
@@ -65,35 +67,40 @@ static void solve_once()
   vf_check(okb, "right-hand-side-is-JtY-of-current-rows");
   // (ii) the returned vector solves the decomposed system
   for (int i = 0; i < n; ++i) {
-    double acc = 0;
+    S acc = 0;
     for (int j = 0; j < n; ++j) {acc += ls.JtJ_(i, j) * z(j);}
     vf_check(vf_eq(acc, ls.JtY_(i)), "solution-satisfies-the-normal-equations");
   }
   vf_reach("solve_once");
 }
-extern "C" void c07_cholesky() { solve_once<false, false>(); }
-extern "C" void c07_svd() { solve_once<true, false>(); }
-extern "C" void c07_weighted() { solve_once<false, true>(); }
+extern "C" void c07_cholesky() { solve_once<double, false, false>(); }
+extern "C" void c07_svd() { solve_once<double, true, false>(); }
+extern "C" void c07_weighted() { solve_once<double, false, true>(); }
+extern "C" void c07_cholesky_f() { solve_once<float, false, false>(); }
+extern "C" void c07_svd_f() { solve_once<float, true, false>(); }
 
 // history: a larger problem, then a smaller one with the same object == a fresh object on the smaller problem
 // (rows beyond dataSize are whatever the first problem left there; W is reset to 1 when the buffers grow)
-extern "C" void c07_history()
+template<typename S>
+static void history()
 {
+  using LS = LeastSquares<S>;
+  using VecX = Eigen::Matrix<S, Eigen::Dynamic, 1>;
   const int n = (int)vf_param("n"), m1 = (int)vf_param("m1"), m2 = (int)vf_param("m2");
   LS ls(n);
   ls.setDataSize(m1);
   fill(ls, m1, n, GN, GN + 40);
-  for (int r = 0; r < m1; ++r) {ls.getW()(r) = vf_f64(WN[r]);}
-  Eigen::VectorXd first = ls.weightedEstimate();
+  for (int r = 0; r < m1; ++r) {ls.getW()(r) = (S)vf_f64(WN[r]);}
+  VecX first = ls.weightedEstimate();
   (void)first;
   bool grew = ls.setDataSize(m2);
   fill(ls, m2, n, JN, YN);
   if (grew) {
     bool ones = true;
-    for (int r = 0; r < m2; ++r) {ones = ones & (ls.getW()(r) == 1.0);}
+    for (int r = 0; r < m2; ++r) {ones = ones & (ls.getW()(r) == S(1));}
     vf_check(ones, "weights-reset-to-one-when-buffers-grow");
   }
-  Eigen::VectorXd z = ls.estimateUsingCholeskyDecomposition();
+  VecX z = ls.estimateUsingCholeskyDecomposition();
   LS fresh(n, m2);
   fill(fresh, m2, n, JN, YN);
   fresh.estimateUsingCholeskyDecomposition();
@@ -104,16 +111,19 @@ extern "C" void c07_history()
   }
   vf_check(same, "second-problem-decomposes-the-same-normal-equations-as-a-fresh-solver");
   for (int i = 0; i < n; ++i) {
-    double acc = 0;
+    S acc = 0;
     for (int j = 0; j < n; ++j) {acc += fresh.JtJ_(i, j) * z(j);}
     vf_check(vf_eq(acc, fresh.JtY_(i)), "reused-solver-solves-the-current-problem-only");
   }
   vf_reach("history");
 }
+extern "C" void c07_history() { history<double>(); }
+extern "C" void c07_history_f() { history<float>(); }
 
 // preconditioner applied as A x + b ; covariance = A^T (J^T J)^-1 A * variance for a diagonal A
 extern "C" void c07_preconditioner()
 {
+  using LS = LeastSquares<double>;
   const int n = (int)vf_param("n"), m = (int)vf_param("m");
   LS ls(n, m);
   fill(ls, m, n, JN, YN);
